@@ -226,6 +226,11 @@ def m_flatten(eng, callee, args):
 
     def g():
         for x in a.gen:
+            d = deref(x)
+            if isinstance(d, Enum) and d.ty == "Option":
+                if d.variant == "Some":
+                    yield (Ref(d.fields, 0) if isinstance(x, Ref) else d.fields[0])
+                continue
             for y in as_iter(x).gen:
                 yield y
     return PyIter(g())
@@ -295,7 +300,7 @@ def m_vec_push(eng, callee, args):
     return Tuple([])
 
 
-@model(r"^<Vec<.*> as std::ops::Index<usize>>::index$|^<\[.*\] as std::ops::Index<usize>>::index$", "Vec indexing (bounds-checked)")
+@model(r"^<Vec<.*> as (std::ops::)?Index(Mut)?<usize>>::index(_mut)?$|^<\[.*\] as (std::ops::)?Index(Mut)?<usize>>::index(_mut)?$", "Vec indexing (bounds-checked)")
 def m_vec_index(eng, callee, args):
     v = deref(args[0])
     items = v.items if isinstance(v, RVec) else v
@@ -651,6 +656,23 @@ def m_int_methods(eng, callee, args):
     ty, op = m.group(1), m.group(2)
     from mirsym import INT_RANGES
     lo, hi = INT_RANGES[ty]
+    raw = [deref(x) for x in args]
+    if any(not isinstance(x, int) for x in raw) and op in ("checked_add", "checked_sub", "wrapping_add", "wrapping_sub",
+                                                             "saturating_add", "saturating_sub", "min", "max"):
+        # symbolic operands (seed arithmetic): mathematical integers with the machine range made explicit
+        za, zb = [z3.IntVal(x) if isinstance(x, int) else x for x in raw[:2]]
+        r = za + zb if op.endswith("add") else (za - zb if op.endswith("sub") else None)
+        span = hi - lo + 1
+        if op.startswith("checked"):
+            fits = z3.And(r >= lo, r <= hi)
+            return Some(r) if eng.ctx.branch(fits, op) else NONE()
+        if op.startswith("wrapping"):
+            return z3.If(r > hi, r - span, z3.If(r < lo, r + span, r))
+        if op.startswith("saturating"):
+            return z3.If(r > hi, z3.IntVal(hi), z3.If(r < lo, z3.IntVal(lo), r))
+        if op == "min":
+            return z3.If(za <= zb, za, zb)
+        return z3.If(za >= zb, za, zb)
     v = _ints(args)
     a = v[0]
     b = v[1] if len(v) > 1 else None
@@ -745,3 +767,33 @@ def m_thread_rng_u64(eng, callee, args):
     x = eng.ctx.fresh_int("thread_rng_u64")
     eng.ctx.assume(z3.And(x >= 0, x <= 2 ** 64 - 1))
     return x
+
+
+@model(r"^Vec::<.*>::remove$", "Vec::remove(i): panics when out of bounds")
+def m_vec_remove(eng, callee, args):
+    v = deref(args[0])
+    i = args[1]
+    if not isinstance(i, int) or i >= len(v.items):
+        raise PanicPath("Vec::remove: index out of bounds")
+    return v.items.pop(i)
+
+
+@model(r"^std::slice::<impl \[(usize|u64|i32|u32)\]>::sort(_unstable)?$|^core::slice::<impl \[(usize|u64|i32|u32)\]>::sort(_unstable)?$", "sort of a slice of concrete integers")
+def m_sort_ints(eng, callee, args):
+    v = deref(args[0])
+    items = v.items if isinstance(v, RVec) else v
+    if not all(isinstance(x, int) for x in items):
+        raise Unmodelled("sort of symbolic integers")
+    items.sort()
+    return Tuple([])
+
+
+@model(r"^sleep$|^std::thread::sleep$", "thread::sleep: returns (counted per path)")
+def m_sleep(eng, callee, args):
+    ctx = eng.ctx
+    ctx.sleeps = getattr(ctx, "sleeps", 0) + 1
+    lim = getattr(ctx, "sleep_limit", None)
+    if lim is not None and ctx.sleeps > lim:
+        from mirsym import BoundHit
+        raise BoundHit("more than %d reporter iterations" % lim)
+    return Tuple([])
